@@ -857,6 +857,12 @@ static void iauth_read(evutil_socket_t fd, short events, void *iauth_in_v)
         if (argc < ARRAY_LENGTH(argv))
             argv[argc] = NULL;
 
+        /* Ignore lines that carry no command at all. */
+        if (argc == 0) {
+            free(line);
+            continue;
+        }
+
         /* If we should know the id, but don't, bail. */
         if (id == -1 || argv[0][0] == 'C')
             req = NULL;
